@@ -24,7 +24,10 @@ MANIFEST = dict(
          "after any add/reset history holds the first registration of every name since the last reset (no duplicates) and "
          "new arrays follow it; the unstructured view on the leading fields is a lens (reads = field reads, writes = field "
          "writes, nothing else touched). Counter-example theorems: duplicated/reserved names are rejected (ValueError), "
-         "unstructured_view ignores the order of names, a scalar first value followed by a sequence is rejected. Model tied to the code by a differential "
+         "unstructured_view ignores the order of names, a scalar first value followed by a sequence is rejected. SOURCE TIE: "
+         "add_extra_parameters_to_live_points (default of default_values, loop over the zip, guard, appends) is regenerated from the "
+         "current source on every run (harness/c18_tx.py -> Gen/LivePointTx.lean) and add_extra_source_eq_model re-proves it equal to "
+         "the model's registry update for every registry state and argument. Model also tied to the code by a differential "
          "correspondence: the real functions and the real global registry (always reset in a finally) against the compiled "
          "Lean model on generated names (1-20 identifiers incl. non-ASCII), n in {0,1,2..12}, values as IEEE bit patterns "
          "(several NaN payloads incl. signalling, +-inf, +-0, subnormals, extremes, random), add/reset histories with "
@@ -39,8 +42,15 @@ MANIFEST = dict(
          "it is checked by the correspondence run (bytes and dtype of an array built before the history are compared after). "
          "Non-contiguous inputs to unstructured_view (x[::2]) are rejected by NumPy with ValueError and 0-d records give a "
          "read-only view: outside the property's domain, recorded in the evidence only.",
-    technique="Lean 4 proof (induction over lists, lens laws) + differential correspondence with the real functions",
+    technique="Lean 4 proof (induction over lists, lens laws) + source-to-Lean translation of the extra-field registration "
+              "re-proved equal to the model on every run + differential correspondence with the real functions",
     ref="5/C18")
+
+def gen(ctx):
+    """regenerate Gen/LivePointTx.lean from the current source of add_extra_parameters_to_live_points (harness/c18_tx.py)"""
+    from . import c18_tx
+    c18_tx.gen(ctx)
+
 
 NAN_TOK = 0x7FF8000000000000
 CORE = ["logP", "logL", "it"]
